@@ -201,7 +201,7 @@ func (st *State) unmodelled(fr *Frame, in ssa.CallInstruction, name string, res 
 // pureExternal lists dependency functions that neither read nor write the
 // program's heap in a way that matters (assumed; listed in evidence).
 func pureExternal(name string) bool {
-	for _, p := range []string{"fmt.", "errors.", "strings.", "strconv.", "math.", "time.", "unicode.", "regexp.", "sort.", "bytes.", "encoding/", "hash/", "(*regexp.", "(time.", "(*strings.", "google.golang.org/grpc/status.", "google.golang.org/grpc/codes.", "(google.golang.org/grpc/codes.", "github.com/google/uuid.", "(github.com/google/uuid.", "google.golang.org/protobuf/types/known/", "(*google.golang.org/protobuf/types/known/", "context.", "(*context.", "invoke context.Context.", "invoke hash.", "invoke io."} {
+	for _, p := range []string{"fmt.", "errors.", "strings.", "strconv.", "math.", "time.", "unicode.", "regexp.", "sort.", "bytes.", "encoding/", "hash/", "(*regexp.", "(time.", "(*strings.", "google.golang.org/grpc/status.", "google.golang.org/grpc/codes.", "(google.golang.org/grpc/codes.", "github.com/google/uuid.", "(github.com/google/uuid.", "google.golang.org/protobuf/types/known/", "(*google.golang.org/protobuf/types/known/", "context.", "(*context.", "invoke context.Context.", "invoke hash.", "invoke io.", "(*sync.Pool).Put"} {
 		if strings.HasPrefix(name, p) {
 			return true
 		}
@@ -344,8 +344,13 @@ func (st *State) applyContract(fr *Frame, in ssa.CallInstruction, ct *Contract, 
 		}
 		st.e.note(u.name, "assumption", fmt.Sprintf("%s cannot reach objects allocated by %s other than its arguments (option unreachable locals)", ct.Func, u.name))
 		st.havocKeeping(ct.Modifies, Const("A0", SInt), except)
-	} else if ct.HasMods && len(ct.Modifies) > 0 {
-		st.havoc(ct.Modifies, nil)
+	} else if ct.HasMods && (len(ct.Modifies) > 0 || len(ct.Allocates) > 0) {
+		if len(ct.Modifies) > 0 {
+			st.havoc(ct.Modifies, nil)
+		}
+		if len(ct.Allocates) > 0 {
+			st.havocFresh(ct.Allocates)
+		}
 	} else if !ct.HasMods && !ct.Trusted {
 		// no frame given: nothing is modified is the default for pure helpers
 	}
